@@ -100,6 +100,11 @@ def run_twin(base_name, pri_units, dunit, libu, dshape, theta, seed, uplan=None)
             for i in range(1, kw["poly_trend"]):
                 hb[f"v{i}"] = np.full(len(theta), 0.01 ** i) * f_ * uu / u.day**i
             out["lnunm"] = np.asarray(hb.ln_unmarginalized_likelihood(data_e), dtype=float)
+            # the same data with the uncertainties quoted in another (equivalent) unit, built with and without the optional
+            # cleaning pass (the data hold no unusable row, so clean=False describes the same observations)
+            out["lnL_errunit"] = np.array(joker.marginal_ln_likelihood(data_e, lib, in_memory=True))
+            data_nc = tj.RVData(data.t, data.rv, data.rv_err.to(eu), t_ref=data.t_ref, clean=False)
+            out["lnL_errunit_noclean"] = np.array(joker.marginal_ln_likelihood(data_nc, lib, in_memory=True))
     if uplan is not None:
         # prior draws including the linear parameters (K cap, trend widths): the same seed must give physically equal rows
         # whatever units the prior was declared in (cached per prior)
@@ -195,6 +200,15 @@ def check_base(base_name, di, quick, seed, part, only_priors=None, only=None):
         if "lnunm" in tw and "lnunm" in canon and not np.allclose(tw["lnunm"], canon["lnunm"] - N * np.log(f), rtol=1e-9, atol=1e-7):
             part.violation(case, "ln_unmarginalized_likelihood (uncertainties given in another unit than the velocities) != canonical value - N ln(unit ratio)",
                            expected=canon["lnunm"] - N * np.log(f), observed=tw["lnunm"])
+            continue
+        hit = False
+        for kk in ("lnL_errunit", "lnL_errunit_noclean"):
+            if kk in tw and not np.allclose(tw[kk], tw["lnL"], rtol=1e-9, atol=1e-9, equal_nan=True):
+                part.violation(case, "marginal ln-likelihood changes when the uncertainties are quoted in another equivalent unit than the velocities (%s)" % kk,
+                               expected=tw["lnL"], observed=tw[kk])
+                hit = True
+                break
+        if hit:
             continue
         if not np.allclose(tw["lnL_file"], tw["lnL"], rtol=1e-9, atol=1e-9):
             part.violation(case, "cache-file path and in-memory path disagree for a library stored in these column units",
